@@ -4,7 +4,7 @@ format 1, ARINC-429 format 0, time formats 1 and 2, analog, computer-generated f
 Contributes to C04 (layout + round trip), C08/C13/C14 (through CLASSGEN), C09 (ARINC-429 word count),
 C15 (BCD helpers), C17 (PCM minor-frame size from two sync words)."""
 import time as _time, calendar as _calendar
-from ..core import hexb, run_line_impl, run_driver, SPECDRIVER, ADAPTERS, FUNCS
+from ..core import hexb, run_line_impl, run_driver, SPECDRIVER, ADAPTERS, FUNCS, guarded
 from ..runner import Failure
 from .. import gen
 from ..gen import ClassGen
@@ -959,6 +959,11 @@ def _c04_cases(ctx):
     for kind in ("rtc", "ptp"):
         ms = [{"ipts": ipts_json(rng, kind), "bs": rng.boundary(16), "gap": rng.boundary(16), "data": d} for d in (rng.bytes_(4).hex(), "")]
         cases.append(("mil_packet", {"kind": kind, "ttb": 1, "msgs": ms}))                   # K7: a last message without data
+        # the 16-bit length field at its limit: the largest messages the format can carry, followed by a small one
+        for big in (65520, 65521, 65522, 65534, 65535):
+            ms = [{"ipts": ipts_json(rng, kind), "bs": rng.boundary(16), "gap": rng.boundary(16), "data": rng._raw(big).hex()},
+                  {"ipts": ipts_json(rng, kind), "bs": 1, "gap": 2, "data": rng._raw(6).hex()}]
+            cases.append(("mil_packet", {"kind": kind, "ttb": 2, "msgs": ms}))
         for cnt in list(range(1, 13)) * m:
             ms = [{"ipts": ipts_json(rng, kind), "bs": rng.boundary(16), "gap": rng.boundary(16),
                    "data": rng.bytes_(rng.choice([0, 1, 2, 3, 8, 64] if i < cnt - 1 else [1, 2, 3, 8, 64])).hex()} for i in range(cnt)]
@@ -1126,12 +1131,15 @@ def _arinc_valid(ctx):
         out.append(bytes.fromhex(a[4:]))
     return out
 
+def corr_C09_video(ctx):
+    return [gen.H("VideoFormat2", ["unpack " + hexb(b), "obs"]) for b in _video_accept_cases(ctx)]
+
 def corr_C09(ctx):
     lines = []
     for b in _arinc_valid(ctx):
         for m in _arinc_mutants(ctx.rng, b):
             lines.append(gen.H("ARINC429DataPacket", ["unpack " + hexb(m), "obs"]))
-    return lines
+    return lines + corr_C09_video(ctx)
 
 def check_arinc_accept(args):
     """ARINC-429: a buffer is accepted exactly when it holds the 4-byte CSW and the declared word count equals
@@ -1157,8 +1165,52 @@ def check_arinc_accept(args):
 
 ORACLES["ch11_arinc_accept"] = check_arinc_accept
 
+def check_video_accept(args):
+    """video format 2 hands `buffer[4:]` to the transport-stream decoder: the MPEG-TS checks (sync byte, whole 188-byte
+    packets, a chunk long enough for its header) are enforced THROUGH the container exactly as by `MPEGTS.unpack` itself —
+    a body that MPEGTS refuses is refused, never accepted with the tail dropped; an accepted body gives the same packets"""
+    b = bytes.fromhex(args["buf"])
+    body = b[4:]
+    t = mpegts.MPEGTS()
+    st_t = guarded(lambda: t.unpack(body))
+    v = video.VideoFormat2()
+    st_v = guarded(lambda: v.unpack(b))
+    if (st_t[0] == "ok") != (st_v[0] == "ok"):
+        return "VideoFormat2.unpack %s a %d-byte body (%d whole packets + %d bytes) that MPEGTS.unpack %s" % (
+            "accepts" if st_v[0] == "ok" else "rejects", len(body), len(body) // 188, len(body) % 188,
+            "rejects (%s)" % st_t[1] if st_t[0] != "ok" else "accepts")
+    if st_v[0] == "ok" and [x.pack() for x in v.mpegts.blocks] != [x.pack() for x in t.blocks]:
+        return "VideoFormat2.unpack returns other transport packets than MPEGTS.unpack for the same %d-byte body" % len(body)
+    return None
+
+ORACLES["ch11_video_accept"] = check_video_accept
+
+def _video_accept_cases(ctx):
+    rng = ctx.rng
+    out = []
+    for k in (0, 1, 2, 3):
+        pk = [ts_packet(rng) if rng.random() < 0.7 else ts_chunk(rng) for _ in range(k)]
+        body = b"".join(pk)
+        csw = (rng.getrandbits(32) & ~(1 << 19)).to_bytes(4, "little")
+        out.append(csw + body)
+        for tail in (1, 2, 3, 4, 5, 100, 187):
+            out.append(csw + body + rng._raw(tail))                        # trailing bytes that are no packet
+            out.append(csw + body + ts_packet(rng)[:tail])                 # a transport packet cut short
+        if k:
+            bad = bytearray(body); bad[188 * (k - 1)] = rng.choice([0x46, 0x00, 0xFF, 0x48])
+            out.append(csw + bytes(bad))                                   # last packet without the sync byte
+            out.append(csw + body[:-1])                                    # last packet one byte short
+    return out
+
 def oracles_C09(ctx, hints):
     fails, n = [], 0
+    for b in _video_accept_cases(ctx):
+        n += 1
+        args = {"buf": b.hex()}
+        w = check_video_accept(args)
+        if w:
+            fails.append(Failure("ch11_video_accept", args, w, {"class": "VideoFormat2", "check": "accept_exact"}))
+            break
     for b in _arinc_valid(ctx):
         for m in _arinc_mutants(ctx.rng, b):
             n += 1
